@@ -35,9 +35,19 @@ class U(State):
     tag: str = ""
 
 
+class F(State):
+    """a state whose instances are falsy (defines __bool__): still a supplied instance"""
+
+    x: int = 0
+    tag: str = ""
+
+    def __bool__(self) -> bool:
+        return False
+
+
 GI = G[int]
 
-FAMILY: dict[str, type[State]] = {"A": A, "A2": A2, "R": R, "G": GI, "U": U}
+FAMILY: dict[str, type[State]] = {"A": A, "A2": A2, "R": R, "G": GI, "U": U, "F": F}
 
 # supply alphabet: lists of type names (two entries of one type = two instances, last wins)
 SUPPLY = [
@@ -54,6 +64,8 @@ SUPPLY = [
     ["A", "A="],
     ["A="],
     ["U"],
+    ["F"],
+    ["A", "F"],
 ]
 
 
